@@ -37,7 +37,7 @@ R=[
 ('C39', r'^(rename|move-[a-z-]+):diagram-has-import'+K+T+r':object-added', 'Rename / Move of an object that comes from an imported file succeeds but can only rewrite the local references (`a -> i` becomes `a -> z`): the imported object keeps its name and place and a new empty object appears'),
 ('C39', r'^move-[a-z-]+:diagram-has-import'+K+T+r':object-lost', 'Move of a container whose children come from a spread import inside its map (`c: {...@y}`) without its descendants re-creates the container without the import: the imported children are lost instead of staying in the former parent'),
 ('C39', r'^move-with(out)?-descendants(:diagram-has-underscore-reference)?:target-in-flat-key'+T+r':object-(label|attributes)-changed', 'Move across scopes of an object declared through (or being the prefix of) a flat key (`a.b: L1 {style.fill: …}`, `a.c: L2` + `a: L3 {n}`) while the parent has further references (`a`, `a: L3`, `_.a.b`) slices the wrong key: label and style end up on the former parent (`a: L1 {…}`) and the moved object is left bare'),
-('C39', r'^move-with-descendants:diagram-has-underscore-reference'+K+T+r':object-lost', 'Move(d, a.d, includeDescendants) when d\'s map only holds an underscore reference (`d: L5 {_.a.b}`) deletes d altogether: the key is removed from its scope and never re-inserted'),
+('C39', r'^move-with-descendants:diagram-has-underscore-reference'+K+T+r':object-(lost|label-changed)', 'Move(d, a.d, includeDescendants) when d\'s map only holds an underscore reference (`d: L5 {_.a.b}`) deletes d\'s key altogether: it is removed from its scope and never re-inserted, so d is lost (or, when a connection still mentions it, survives without label)'),
 ('C39', r'^move-with-descendants:diagram-has-underscore-reference'+K+T+r':object-added', 'Move of a container whose map refers with underscores to an object with a quoted dotted name (`e -> _.a."q.r"`) re-quotes the already formatted ID (`_.\'"q.r"\'`): the connection is re-attached to a new object named `"q.r"` with the quotes in the name'),
 ('C39', r'^move-without-descendants'+F+K+r':object-(added|lost)', 'Move of a container WITHOUT its descendants into its own former child or grandchild (`Move(a, a.c.a)`) updates connection references as if the old path still existed (`a.c.a -> e`): a new object chain a.c.a is created at the root and the moved object loses label/attributes'),
 ('C39', r'^move-with(out)?-descendants'+F+K+r':target-local:object-lost', 'Move, addressed to a scenario board, of an object that the board declares through a flat key (`m.n`) to the board root removes the key segment and never re-inserts the object: `m.n` becomes `m` and n is lost'),
@@ -46,6 +46,7 @@ R=[
 ('C40', r'^deltas:delete'+F+r':connection:change-predicted-for-removed-element', 'DeleteIDDeltas of a container predicts a new ID for a connection between a child and the container itself (`(a.a -> a)[0]` -> `(a -> a)[0]`), but Delete removes that connection because it is attached to the deleted object'),
 ('C40', r'^deltas:(delete|move)'+F+r':connection:predicted-new-id-wrong', 'the prediction is what a correct edit would give; the edit itself misplaces the connection — Move of a container without descendants into its own child leaves `a.c.a -> e` (C39 move-without-descendants:object-added), and the consequence of the underscore-stripping defect of Delete/Move (C38 delete-object:…:object-added): the surviving connection `e -> _.b` ends up attached to a new object d.b, so its ID is d.(e -> b)[0] while the prediction says (d.e -> b)[0]'),
 ('C40', r'^deltas:(move|rename|reconnect|delete):diagram-has-import:', 'the *IDDeltas functions predict new IDs for imported objects/connections (or for local elements next to them), while Rename/Move/ReconnectEdge/Delete succeed without being able to change an imported element (see C39 …:diagram-has-import:object-added, C38 …:diagram-has-import:…)'),
+('C40', r'^deltas:move'+F+r':connection:change-not-predicted', 'Move re-inserts the moved container (with a connection `_.b -> _.c` inside) textually before an existing parallel connection `a.b -> a.c`, so the two swap indices; MoveIDDeltas predicts no change for the untouched connection'),
 ('C40', r'^deltas:move'+F+r':object:predicted-new-id-wrong', 'MoveIDDeltas applies the would-be-hoisted-children conflict renames (`a.b` -> `z.b 3`) also for a same-scope move without descendants, where Move keeps the children under the renamed object unchanged (`z.b`)'),
 ('C40', r'^deltas:reconnect'+F+r':connection:predicted-change-did-not-happen', 'ReconnectEdgeIDDeltas treats connections with the same end points but different arrow directions (`a <- b` and `a -> b`) as parallel and predicts index shifts for them; the edit does not renumber them'),
 ('C40', r'^deltas:reconnect'+F+r':connection:(predicted-new-id-wrong|change-not-predicted)', 'ReconnectEdgeIDDeltas derives the new index from source line numbers of first references; ReconnectEdge splits chains / rewrites indexed references so the reconnected connection gets a different index among its new parallel siblings (and siblings shift) than predicted'),
